@@ -9,7 +9,7 @@ from props import bslib
 
 PROPERTY = 'C10'
 LEVEL = 'exploration'
-RULE = ('Hypothesis data sets: 40-200 distinct unsorted abscissae, y = smooth signal + pseudo-Gaussian noise of known sigma, 0-4 injected '
+RULE = ('Hypothesis data sets: 40-200 unsorted abscissae (sometimes with repeated values), y = smooth signal + pseudo-Gaussian noise of known sigma, 0-4 injected '
         'outliers of 20-50 sigma, invvar = 1/sigma^2 with ~10 % zeros and occasionally negative values, order 2-4, nbkpts or bkspace '
         'giving 3-8 intervals, upper/lower in [3,6] drawn independently or exactly 0 (reject everything on that side), invvar given or omitted (documented default 1/variance; also with integer y), maxiter in {0,1,2,3,10}, a random permutation.  Oracles: '
         '(i) permuted input gives the same curve and the identically permuted mask; (ii) mask False wherever invvar <= 0; (iii) maxiter=0 '
@@ -17,7 +17,7 @@ RULE = ('Hypothesis data sets: 40-200 distinct unsorted abscissae, y = smooth si
         '-lower/+upper sigma among good points -> refit (at most maxiter+1 fits) with an independent dense solver on the knots the '
         'object reports: returned mask and curve must equal the reference (so injected outliers that the procedure rejects end False).  '
         'Non-trivial = >=1 outlier, >=1 zero weight, non-identity permutation, maxiter >= 1, well supported.')
-ASSUMPTIONS = ['abscissae are distinct (a stable order of equal x is not part of the statement)',
+ASSUMPTIONS = ['abscissae may repeat (up to 8 coinciding pairs); each point is judged on its own, so the order among equal x does not matter',
                'if any normalised residual comes within 1e-6 of a rejection limit during the reference run the case is accepted either way',
                'if a rejection pass leaves a knot interval without order+1 good points, or the design matrix has cond > 1e4, only (i) and (ii) are asserted',
                'curves are compared on a grid inside the breakpoint range; tolerance 1e-6 of the data scale']
@@ -31,6 +31,19 @@ def setup():
 
 @st.composite
 def case_strategy(draw):
+    if draw(st.integers(0, 24)) == 0:
+        # the smallest well-posed problem: one breakpoint interval and exactly order (or order + 1) positively weighted points,
+        # among a few points without weight - the fit is the polynomial through (or closest to) the good points
+        nord = draw(st.sampled_from([4, 3, 2, 5]))
+        ngood = nord + draw(st.sampled_from([0, 0, 1]))
+        nz = draw(st.integers(1, 6))
+        n = ngood + nz
+        x = [2.0 + 5.0 * (i + 0.8 * draw(uf) * 0.5) / n for i in range(n)]
+        zeros = sorted(draw(st.lists(st.integers(0, n - 1), min_size=nz, max_size=nz, unique=True)))
+        neg = draw(st.lists(st.sampled_from(zeros), max_size=2, unique=True))
+        return dict(x=x, sigma=0.05, amp=1.0, ph=[draw(uf) for _ in range(4)], noise=[draw(uf) for _ in range(n)], outl=[], osign=[], zeros=zeros, neg=neg,
+                    perm=list(draw(st.permutations(list(range(n))))), nord=nord, kw=draw(st.sampled_from([dict(nbkpts=2), dict(bkspace=100.0)])),
+                    upper=5, lower=5, maxiter=draw(st.sampled_from([0, 5])), wvary=False, weights='invvar', dups=[], tiny=True)
     n = draw(st.integers(40, 200))
     span = draw(st.sampled_from([1.0, 10.0, 1000.0]))
     x0 = draw(st.sampled_from([0.0, -3.0, 3500.0]))
@@ -53,7 +66,9 @@ def case_strategy(draw):
                 upper=draw(st.one_of(st.sampled_from([0, 0.0, 5]), uf.map(lambda v: 3 + 3 * 0.5 * (1 + v)), uf.map(lambda v: 3 + 3 * 0.5 * (1 + v)), uf.map(lambda v: 3 + 3 * 0.5 * (1 + v)))),
                 lower=draw(st.one_of(st.sampled_from([0, 0.0, 5]), uf.map(lambda v: 3 + 3 * 0.5 * (1 + v)), uf.map(lambda v: 3 + 3 * 0.5 * (1 + v)), uf.map(lambda v: 3 + 3 * 0.5 * (1 + v)))),
                 maxiter=draw(st.sampled_from([3, 2, 10, 1, 0])), wvary=draw(st.booleans()),
-                weights=draw(st.sampled_from(['invvar', 'invvar', 'invvar', 'none', 'none-integer-y'])))
+                weights=draw(st.sampled_from(['invvar', 'invvar', 'invvar', 'none', 'none-integer-y'])),
+                # some abscissae occur twice or three times (two exposures on one grid, rounded positions)
+                dups=draw(st.sampled_from([[], [], draw(st.lists(st.tuples(st.integers(1, n - 2), st.integers(1, n - 2)), min_size=1, max_size=8))])))
 
 
 def normalise(case):
@@ -68,6 +83,8 @@ def normalise(case):
 
 def build(case):
     x = np.array(case['x'], dtype='f8')
+    for i, j in case.get('dups', []):
+        x[j] = x[i]
     n = len(x)
     s = (x - x.min()) / (x.max() - x.min())
     ph = case['ph']
@@ -192,6 +209,10 @@ def classify(case):
            'weights:' + case.get('weights', 'invvar')]
     if case['upper'] == 0 or case['lower'] == 0:
         out.append('zero-threshold')
+    if case.get('tiny'):
+        out.append('exactly-determined')
+    if case.get('dups'):
+        out.append('repeated-abscissae')
     if case['zeros']:
         out.append('zero-weights')
     if case['neg']:
